@@ -63,6 +63,18 @@ type Config struct {
 	// returns, as a channel that pushes to a remote service may.
 	HoldSource string `json:"hold_source,omitempty"`
 	HoldMs     int    `json:"hold_ms,omitempty"`
+	// Retain: besides serialising every event the moment it is delivered, the channel keeps
+	// the event.Event objects of this category ("*": of every category) as delivered, the
+	// way a pusher that queues events and marshals them later does; Canary.Late reads
+	// their fields again at a time of the caller's choosing.
+	Retain string `json:"retain,omitempty"`
+}
+
+// LateEv is a retained event as it reads at the time of a Late call; I is its position
+// in the canary's event list (Events()).
+type LateEv struct {
+	I int                    `json:"i"`
+	M map[string]interface{} `json:"m"`
 }
 
 type report struct {
@@ -80,6 +92,7 @@ type report struct {
 	State  string                 `json:"state,omitempty"`
 	GapMs  int                    `json:"gap_ms,omitempty"`
 	Excess int                    `json:"excess_ms,omitempty"`
+	Late   []LateEv               `json:"late,omitempty"`
 }
 
 type BatchPanic struct {
@@ -93,6 +106,7 @@ type BatchPanic struct {
 
 type childCanary struct {
 	c      *canary.Canary
+	ev     *evChan
 	peers  []int
 	cancel context.CancelFunc
 	// stalled: a write to the socketpair gave up because the receive loop had not taken
@@ -129,14 +143,20 @@ type evChan struct {
 	w          *repWriter
 	holdSource string
 	hold       time.Duration
+	retain     string
+
+	mu   sync.Mutex // orders the "ev" reports of this canary with their positions
+	n    int        // events delivered so far
+	kept []keptEv
 }
 
-func (e *evChan) Send(ev event.Event) {
-	m := event.ToMap(ev)
-	if e.hold > 0 && fmt.Sprint(m["category"]) == "portscan" && fmt.Sprint(m["source-ip"]) == e.holdSource {
-		e.w.send(report{T: "hold", ID: e.id})
-		time.Sleep(e.hold)
-	}
+type keptEv struct {
+	i  int
+	ev event.Event
+}
+
+// flatten copies the fields of an event into what goes over the report pipe.
+func flatten(m map[string]interface{}) map[string]interface{} {
 	out := make(map[string]interface{}, len(m))
 	for k, v := range m {
 		if k == "payload" || k == "date" {
@@ -165,7 +185,35 @@ func (e *evChan) Send(ev event.Event) {
 			out[k] = fmt.Sprint(v)
 		}
 	}
+	return out
+}
+
+func (e *evChan) Send(ev event.Event) {
+	m := event.ToMap(ev)
+	if e.hold > 0 && fmt.Sprint(m["category"]) == "portscan" && fmt.Sprint(m["source-ip"]) == e.holdSource {
+		e.w.send(report{T: "hold", ID: e.id})
+		time.Sleep(e.hold)
+	}
+	out := flatten(m)
+	e.mu.Lock()
+	if e.retain == "*" || (e.retain != "" && fmt.Sprint(m["category"]) == e.retain) {
+		e.kept = append(e.kept, keptEv{i: e.n, ev: ev})
+	}
+	e.n++
 	e.w.send(report{T: "ev", ID: e.id, M: out})
+	e.mu.Unlock()
+}
+
+// late reads the fields of the retained events as they are now.
+func (e *evChan) late() []LateEv {
+	e.mu.Lock()
+	kept := append([]keptEv(nil), e.kept...)
+	e.mu.Unlock()
+	out := make([]LateEv, 0, len(kept))
+	for _, k := range kept {
+		out = append(out, LateEv{I: k.i, M: flatten(event.ToMap(k.ev))})
+	}
+	return out
 }
 
 // ChildIfRequested turns the process into the canary child when the environment asks
@@ -418,6 +466,8 @@ func childMain() int {
 			w.send(r)
 		case 'S':
 			w.send(report{T: "states", ID: id, States: k.c.VerifStateCount()})
+		case 'E': // the retained events as they read now
+			w.send(report{T: "late", ID: id, Late: k.ev.late()})
 		case 'K':
 			if k.cancel != nil {
 				k.cancel()
@@ -607,11 +657,12 @@ func newChildCanary(id uint32, cfg Config, w *repWriter) (*childCanary, error) {
 		}
 		rt = append(rt, canary.Route{Interface: r.Interface, Gateway: gw, Destination: *dst})
 	}
-	c, err := canary.NewVerif(cfg.Interfaces, ac, rt, &evChan{id: id, w: w, holdSource: cfg.HoldSource, hold: time.Duration(cfg.HoldMs) * time.Millisecond})
+	ec := &evChan{id: id, w: w, holdSource: cfg.HoldSource, hold: time.Duration(cfg.HoldMs) * time.Millisecond, retain: cfg.Retain}
+	c, err := canary.NewVerif(cfg.Interfaces, ac, rt, ec)
 	if err != nil {
 		return nil, err
 	}
-	k := &childCanary{c: c}
+	k := &childCanary{c: c, ev: ec}
 	for _, name := range cfg.Interfaces {
 		k.peers = append(k.peers, c.VerifPeer(name))
 	}
@@ -1278,6 +1329,21 @@ func (k *Canary) ConnState(src IP4, sport uint16, dst IP4, dport uint16) (iss ui
 func (k *Canary) States() (int, error) {
 	r, err := k.ch.call('S', k.id, nil, "states")
 	return r.States, err
+}
+
+// Late reads the fields of the events the channel retained (Config.Retain) as they are
+// now - not as they were when the event was delivered - and returns them by position in
+// Events(). Every event it returns is in Events() when it returns.
+func (k *Canary) Late() (map[int]Ev, error) {
+	r, err := k.ch.call('E', k.id, nil, "late")
+	if err != nil {
+		return nil, err
+	}
+	out := make(map[int]Ev, len(r.Late))
+	for _, l := range r.Late {
+		out[l.I] = Ev{M: l.M}
+	}
+	return out, nil
 }
 
 // Close releases the canary in the child (inject-mode canaries only).
